@@ -5,8 +5,9 @@ switch ForwardOnlyEraUnfold) -> TLC decides the property section at scaled const
 Apalache decides the same formulas at the real constants, TLC enumerates the cases,
 harness/c04 replays them (and Apalache's counterexamples) on the real functions at the
 real constants, spec/trace/NtpTimeTrace.tla judges the recorded results (monitor) and
-compares them with the transcription (strict; the switch is FALSE = repaired by default since
-/repo commit 28e9272, the forward-only variant is kept as a specification self-test).
+compares them with the transcription (strict).  The switches ForwardOnlyEraUnfold and
+WholeSecondUnfold are FALSE by default; the TRUE settings (earlier forms of the code) are kept
+as specification self-tests that must be refuted.
 """
 import glob, json, os, re, shutil, subprocess, threading, time
 import vlib
@@ -62,23 +63,26 @@ def sig_of(inv, bad):
     """Structural signature: clause, observed composition, and on which side of an era
     boundary the time (for order: and its predecessor) lies relative to t0."""
     clause = CLAUSE.get(inv, inv)
+    edge = " half-era-edge=%+d" % bad["sd"] if bad.get("sd") else ""
     if inv in ("ROrder", "RAgg"):
-        return "C04 %s TimeFromTime64(Time64FromTime(t),t0) era-cross(prev,t)=(%+d,%+d)" % (
-            clause, bad.get("pcross", 0), bad.get("cross", 0))
-    return "C04 %s TimeFromTime64(Time64FromTime(t),t0) era-cross=%+d" % (clause, bad.get("cross", 0))
+        return "C04 %s TimeFromTime64(Time64FromTime(t),t0) era-cross(prev,t)=(%+d,%+d)%s" % (
+            clause, bad.get("pcross", 0), bad.get("cross", 0), edge)
+    return "C04 %s TimeFromTime64(Time64FromTime(t),t0) era-cross=%+d%s" % (clause, bad.get("cross", 0), edge)
 
 
 class Bg(threading.Thread):
-    """ctx.tlc in the background; result or exception collected by get()."""
+    """ctx.tlc runs, one after the other, in the background; results or the exception
+    are collected by get()."""
 
-    def __init__(self, ctx, *a, **kw):
+    def __init__(self, ctx, *runs):
         super().__init__(daemon=True)
-        self.ctx, self.a, self.kw, self.res, self.exc = ctx, a, kw, None, None
+        self.ctx, self.runs, self.res, self.exc = ctx, runs, [], None
         self.start()
 
     def run(self):
         try:
-            self.res = self.ctx.tlc(*self.a, **self.kw)
+            for a, kw in self.runs:
+                self.res.append(self.ctx.tlc(*a, **kw))
         except BaseException as e:  # re-raised in the main thread
             self.exc = e
 
@@ -93,41 +97,42 @@ def run(ctx):
     q = ctx.quick
     ctx.specdir()
     # 0. Apalache at the real constants, in the background (specification-level only)
-    invs = ["NsRoundTrip", "RoundTripRepaired", "RoundTripFaithful"] + ([] if q else ["OrderRepaired", "OrderFaithful"])
+    invs = ["NsRoundTrip", "RoundTripRepaired", "RoundTripWholeSec"] + (
+        [] if q else ["OrderRepaired", "OrderWholeSec", "RoundTripFaithful"])
     apas = [Apa(ctx, i) for i in invs] if shutil.which("apalache-mc") else []
     for a in apas:
         a.start()
-    # the spec self-test (old forward-only unfolding) and the case generator run next to
-    # the exhaustive configurations
-    bg_f = Bg(ctx, "NtpTimeMC", "NtpTime_faithful.cfg", workers=1, timeout=600, allow_violation=True, tag="selftest-forward-only")
-    bg_g = Bg(ctx, "NtpTimeMC", "NtpTime_gen.cfg" if q else "NtpTime_gendeep.cfg", workers=1, timeout=900, tag="gen")
+    # the spec self-tests (earlier forms of the era unfolding) and the case generator run
+    # next to the exhaustive configurations (at most 8 TLC workers in total: 6 + 1 + 1)
+    bg_s = Bg(ctx,
+              (("NtpTimeMC", "NtpTime_wholesec.cfg"), dict(workers=1, timeout=600, allow_violation=True, tag="selftest-whole-second")),
+              (("NtpTimeMC", "NtpTime_faithful.cfg"), dict(workers=1, timeout=600, allow_violation=True, tag="selftest-forward-only")))
+    bg_g = Bg(ctx, (("NtpTimeMC", "NtpTime_gen.cfg" if q else "NtpTime_gendeep.cfg"), dict(workers=1, timeout=900, tag="gen")))
 
-    # 1. design level: the property section of NtpTime.tla with the repaired era
-    #    unfolding must hold (the property is implementable by this algorithm)
-    #    (at most 8 TLC workers in total: 6 here + faithful + generator)
+    # 1. design level: the property section of NtpTime.tla must hold for the
+    #    specification's default (the property is implementable by this algorithm)
     for cfg in (["NtpTime_exh.cfg"] if q else ["NtpTime_deep.cfg", "NtpTime_deepns.cfg"]):
         r = ctx.tlc("NtpTimeMC", cfg, workers=6, timeout=1200)
-        ctx.log("TLC %s: %d distinct states in %.0fs, property section holds (ForwardOnlyEraUnfold=FALSE)" % (
-            cfg, r["distinct"], r["wall_s"]))
-    # spec self-test: the old forward-only unfolding must be refuted by the same property
-    # section; its counterexample is one more case for the real functions
-    rf = bg_f.get()
+        ctx.log("TLC %s: %d distinct states in %.0fs, property section holds" % (cfg, r["distinct"], r["wall_s"]))
+    # spec self-tests: the earlier forms must be refuted by the same property section;
+    # their counterexamples are further cases for the real functions
     extra = []
-    if not rf["violated"]:
-        raise vlib.Inconclusive("spec self-test failed: NtpTime with ForwardOnlyEraUnfold=TRUE is not refuted")
-    m0 = re.findall(r"t0 = <<(-?\d+), (-?\d+)>>", rf["out"])
-    mt = re.findall(r"/\\ t = <<(-?\d+), (-?\d+)>>", rf["out"])
-    ctx.log("TLC NtpTime_faithful.cfg (self-test): %s refuted for ForwardOnlyEraUnfold=TRUE as expected (t0=%s t=%s); "
-            "case replayed on the real code" % (rf["violated"], m0[-1] if m0 else "?", mt[-1] if mt else "?"))
-    ctx.notes.append("spec self-test: NtpTime with ForwardOnlyEraUnfold=TRUE violates %s at scaled t0=%s t=%s" % (
-        rf["violated"], m0[-1] if m0 else "?", mt[-1] if mt else "?"))
-    if m0 and mt:
-        r_, rn_ = map(int, m0[-1])
-        s_, n_ = map(int, mt[-1])
-        extra.append(dict(r=r_, rn=rn_, o=s_ - r_, n=n_, pos=(r_ + 33) % 64, era=(r_ + 33) // 64))
+    for rf in bg_s.get():
+        if not rf["violated"]:
+            raise vlib.Inconclusive("spec self-test failed: %s is not refuted" % rf["cfg"])
+        m0 = re.findall(r"t0 = <<(-?\d+), (-?\d+)>>", rf["out"])
+        mt = re.findall(r"/\\ t = <<(-?\d+), (-?\d+)>>", rf["out"])
+        ctx.log("TLC %s (self-test): %s refuted as expected (t0=%s t=%s); case replayed on the real code" % (
+            rf["cfg"], rf["violated"], m0[-1] if m0 else "?", mt[-1] if mt else "?"))
+        ctx.notes.append("spec self-test %s: violates %s at scaled t0=%s t=%s" % (
+            rf["cfg"], rf["violated"], m0[-1] if m0 else "?", mt[-1] if mt else "?"))
+        if m0 and mt:
+            r_, rn_ = map(int, m0[-1])
+            s_, n_ = map(int, mt[-1])
+            extra.append(dict(r=r_, rn=rn_, o=s_ - r_, n=n_, pos=(r_ + 33) % 64, era=(r_ + 33) // 64))
 
     # 2. spec -> code: TLC enumerates (reference, time) cases with the spec's results
-    g = bg_g.get()
+    g = bg_g.get()[0]
     cases = extra + ctx.emitted(g["out"])
     if len(cases) < 5000:
         raise vlib.Inconclusive("case generator produced only %d cases" % len(cases))
@@ -183,7 +188,7 @@ def run(ctx):
     for c in cases[:ntlc]:
         if "s32" in c:
             e = by[(c["r"], c["rn"], c["o"], c["n"])]
-            if any(e[k] != c[k] for k in ("s32", "frac", "nsec", "bf", "br")):
+            if any(e[k] != c[k] for k in ("s32", "frac", "nsec", "bf", "bw", "br")):
                 raise vlib.Inconclusive("driver evaluator differs from TLC's table: %s vs %s" % (e, c))
 
     # 4. code -> spec: the monitor decides.  If TLC rejects a chunk it is run once more
@@ -191,8 +196,6 @@ def run(ctx):
     #    per (clause, structural class).
     nval, nbad = 0, 0
     chunk = 150000
-    conforms = {"NtpTimeTrace_strict.cfg": True, "NtpTimeTrace_strictfwd.cfg": True}
-    drift_ex = {}
     found = {}      # signature -> [count, first record, invariant]
     for i in range(0, len(recs), chunk):
         part = recs[i:i + chunk]
@@ -234,14 +237,18 @@ def run(ctx):
                         "late" if bad["d"] > 0 else "early", bad["b"], bad["t"], bad["pt"], bad["pb"]))
         else:
             what = ("real round trip violates %s in %d sweep blocks, e.g. second t=%s for t0=%s (sub-second %d..%d): "
-                    "min/max back-t = %d/%d ns, inversions=%d, first offending ns=%d" % (
+                    "min/max back-t = %d/%d ns, inversions=%d (+%d with the nanosecond before), first offending ns=%d" % (
                         inv, cnt, real[1], real[0], bad["n0"], bad["n1"], bad["mind"], bad["maxd"],
-                        bad["inversions"], bad["first_bad"]))
+                        bad["inversions"], bad["pinv"], bad["first_bad"]))
         ctx.violation(sig, what, bad)
-    # strict: the real results equal the transcription (repaired era unfolding, the
-    # specification's default).  If not, the old forward-only variant is consulted so
-    # that the DRIFT line says whether the code fell back to it.
-    for cfg in ("NtpTimeTrace_strict.cfg", "NtpTimeTrace_strictfwd.cfg"):
+    # strict: the real results equal the transcription (the specification's default).
+    # If not, the earlier forms are consulted so that the DRIFT line says whether the
+    # code equals one of them.
+    variants = [("NtpTimeTrace_strict.cfg", "default"), ("NtpTimeTrace_strictws.cfg", "WholeSecondUnfold=TRUE"),
+                ("NtpTimeTrace_strictfwd.cfg", "ForwardOnlyEraUnfold=TRUE")]
+    conforms, drift_ex = {}, {}
+    for cfg, _name in variants:
+        conforms[cfg] = True
         for i in range(0, len(recs), chunk):
             pp = ctx.path("chunk.ndjson")
             vlib.write_ndjson(pp, recs[i:i + chunk])
@@ -253,17 +260,17 @@ def run(ctx):
         if conforms[cfg]:
             break
     if conforms["NtpTimeTrace_strict.cfg"]:
-        ctx.log("strict: the real functions equal NtpTime.tla (ForwardOnlyEraUnfold=FALSE) on all %d records" % len(recs))
-        ctx.notes.append("code conforms to NtpTime with ForwardOnlyEraUnfold=FALSE")
+        ctx.log("strict: the real functions equal NtpTime.tla on all %d records" % len(recs))
+        ctx.notes.append("code conforms to NtpTime (ForwardOnlyEraUnfold=FALSE, WholeSecondUnfold=FALSE)")
     else:
         inv, ex = drift_ex["NtpTimeTrace_strict.cfg"]
-        exs = {k: ex[k] for k in ("k", "real", "t", "b", "bf", "br", "ds32", "dfrac") if k in ex} if ex else "?"
-        if conforms["NtpTimeTrace_strictfwd.cfg"]:
-            ctx.drift.append("real conversion differs from NtpTime.tla (%s) and equals the old forward-only variant "
-                             "ForwardOnlyEraUnfold=TRUE on all records, e.g. %s" % (inv, exs))
+        exs = {k: ex[k] for k in ("k", "real", "t", "b", "bf", "bw", "br", "ds32", "dfrac", "misenc", "misr") if k in ex} if ex else "?"
+        same = [name for cfg, name in variants[1:] if conforms.get(cfg)]
+        if same:
+            ctx.drift.append("real conversion differs from NtpTime.tla (%s) and equals the earlier variant %s on all "
+                             "records, e.g. %s" % (inv, same[0], exs))
         else:
-            ctx.drift.append("real conversion differs from NtpTime.tla under both settings of ForwardOnlyEraUnfold "
-                             "(%s on %s)" % (inv, exs))
+            ctx.drift.append("real conversion differs from NtpTime.tla and from its earlier variants (%s on %s)" % (inv, exs))
 
     rts = [r for r in recs if r["k"] == "rt"]
     aggs = [r for r in recs if r["k"] == "agg"]
@@ -278,11 +285,11 @@ def run(ctx):
         evaluations=len(rts) + swept,
         distinct_nontrivial=len({tuple(r["real"]) for r in rts if r["edge"] != "out"}),
         rule="TLC-enumerated (reference second class x reference sub-second x offset class x sub-second class) at "
-             "NsPerSec=1000, FracUnits=2^12, EraSecs=2^6, eras 0..5, mapped to the real constants by 3 order-preserving "
-             "embeddings (scale 2^26 / 10^6; boundary-sharp: era boundary +-{0,1,2}, offsets -2^31-1..-2^31+2, -2..2, "
+             "NsPerSec=1000, FracUnits=2^12, EraSecs=2^6, eras 0..5, mapped to the real constants by 3 "
+             "embeddings (scale 2^26 / 10^6; translation around the reference's sub-second part; boundary-sharp: era boundary +-{0,1,2}, offsets -2^31-1..-2^31+2, -2..2, "
              "2^31-3..2^31, ns 0..3, 232, 233, 10^9-4..10^9-1, multiples of 5^9, 2^k+-1; seeded fill) + Apalache "
              "counterexamples + seeded random (reference, offset, ns) + sweep blocks of 10^6 consecutive sub-second values "
-             "(thorough: all 10^9 of 10 (reference, second) combinations); distinct = distinct real (t0, t) inside the window",
+             "(thorough: all 10^9 of 12 (reference, second) combinations, 4 of them at the two ends of the window); distinct = distinct real (t0, t) inside the window",
         traces_validated_against_impl=nval, exhaustive=True,
         sweep_values=swept, across_era_in_window=judged_cross,
         samples=[r for r in rts if r["cross"] == -1 and r["edge"] != "out"][:2]
@@ -291,8 +298,8 @@ def run(ctx):
     ctx.assumptions += [
         "TLC decides NtpTime.tla at scaled constants (1000, 2^12, 2^6, -33); the same formulas at the real constants "
         "(10^9, 2^32, 2^32, -2208988800) are decided by Apalache when available (specification level only)",
-        "the window -2^31 s <= t - t0 < 2^31 s is judged only where it holds both for t0 and for t0 truncated to its "
-        "second (the code reads t0.Unix()); the <1 s bands at the two ends where the readings differ are not judged",
+        "the window -2^31 s <= t - t0 < 2^31 s is judged in full at nanosecond granularity, for references with "
+        "arbitrary sub-second parts",
         "references 1970-01-01 .. year 2580 (NTP eras 0..5)",
         "link between the driver's evaluator and NtpTime.tla at the real constants: same code as at the scaled "
         "constants, where TLC validates its complete table (strict mode only, never the verdict)"]
